@@ -1,6 +1,8 @@
 //! Common support for the correspondence harness: deterministic PRNG, Coq case
 //! files, summaries.  Every random choice derives from one seed.
 use serde_json::{json, Value};
+#[cfg(feature = "hooks")]
+pub mod net;
 use std::collections::BTreeMap;
 use std::fmt::Write as _;
 use std::path::{Path, PathBuf};
